@@ -324,6 +324,7 @@ VALUE_CALLS = {"retrieve_clps": 3, "does_interval_item_apply": 1, "applies": 0}
 
 def r3(ctx) -> None:
     repo = ctx.repo
+    lib.check_no_loop_escape(ctx, "C02-R3", ("glotaran/optimization/",), 10)
     targets = [
         (EST, "EstimationProviderUnlinked.calculate_estimation"), (EST, "EstimationProviderLinked.estimate"),
         (MAT, "MatrixProviderLinked.calculate_aligned_matrices"), (MAT, "MatrixProvider.apply_constraints"),
